@@ -34,6 +34,7 @@ type Verifier struct {
 	labelSiteTypes map[string]types.Type
 	effMemo        map[*ssa.Function]map[string]bool
 	syncMapSwept   bool
+	wgSwept        bool
 	expSet         map[string]bool
 }
 
@@ -655,6 +656,17 @@ func (v *Verifier) VerifyFunc(key string) (res *FuncResult) {
 		}
 	}
 	for _, cl := range fc.Of("ghost") {
+		if strings.HasPrefix(cl.Text, "borrows ") {
+			e, err := ParseExpr(strings.TrimPrefix(cl.Text, "borrows "))
+			if err != nil {
+				panic(unsupported{err.Error()})
+			}
+			lv := v.evalLockRef(env, x, st, e)
+			id := x.refOf(lv).String()
+			tc, mon, base, root := x.monitorOf(st, lv)
+			st.Held[id] = &Held{ID: id, Base: base, TC: tc, Mon: mon, Root: root, Borrowed: true}
+			x.note("borrowed lock " + cl.Text[8:] + ": held by the goroutine that started this one until that function returns; what this goroutine establishes is used only before that")
+		}
 		if strings.HasPrefix(cl.Text, "owns ") {
 			// a channel (or other object) only this thread may close / mutate: exempt from interference
 			e, err := ParseExpr(strings.TrimPrefix(cl.Text, "owns "))
